@@ -367,6 +367,14 @@ def lemma_prologue(su):
         goals += [("prologue.at-cond: " + lab, c.implies(g, l)) for lab, l in items]
     goals += [("prologue.no-panic: " + msg, -g) for msg, g in panic]
     goals += [("prologue.compaction-bound: " + msg, -g) for msg, g in compact]
+    # a return out of the prologue obeys the same contract as a return out of the loop (C07 / C01): `false` only from a closed
+    # state, `true` only right after the condition held
+    if ret != F:
+        rvl = lit(rv)
+        exq = c.and2(ret, -rvl)
+        goals += [("prologue.exit: " + lab, c.implies(exq, l)) for lab, l in S.closed(st, su.rules)]
+        goals.append(("prologue.contract: return false only in a state that is not dirty", c.implies(exq, -lit(I.deref(I.call_fn(su.prog.methods[(sch.model, "is_dirty")], T, [], self_val=m))))))
+        goals.append(("prologue.contract: return true only right after the condition held", c.implies(c.and2(ret, rvl), c.orl([g for g, _ in at_cond]))))
     if surj:
         goals += progress_goals(st, snap0, None, "prologue")
     goals += enum_goals(su, st, enum0, "prologue: ")
